@@ -14,9 +14,9 @@ def short(v, n=60):
     return r if len(r) <= n else r[: n - 3] + "..."
 
 
-def run_sequence(ch, stack, dn, seq, menu, trunc="quick", cfg=None, between=None):
+def run_sequence(ch, stack, dn, seq, menu, trunc="quick", cfg=None, between=None, delivery="whole"):
     """Returns (net, obj, rec) ; rec[i] = dict(kind='ret'|'exc'|'base', value, leftovers, used, p0, p1)."""
-    net = stacks.new_net(ch, menu=menu, trunc=trunc)
+    net = stacks.new_net(ch, menu=menu, trunc=trunc, delivery=delivery)
     _ops.preload(net)
     kw = dict(default_noreply=dn, connect_timeout=3, timeout=7)
     if cfg:
